@@ -59,7 +59,8 @@ def run_one(spec, prefix, limits=Limits):
     kind, info = 'ok', ''
     import signal
     def _alarm(sig, frm):
-        raise PathEnd('unsupported', 'path wall-clock limit (%ds) exceeded' % spec.get('path_seconds', 300))
+        # only set a flag: raising here could land inside a destructor / ctypes callback and be swallowed
+        p.expired = True
     try:
         signal.signal(signal.SIGALRM, _alarm); signal.alarm(int(spec.get('path_seconds', 300)))
     except (ValueError, OSError):
